@@ -269,6 +269,10 @@ class FnTx:
             c, kc = self.tx(n.test)
             a, ka = self.tx(n.body)
             b, kb = self.tx(n.orelse)
+            if kc == "bool" and kb == "none" and isinstance(ka, str) and ka != "none" and not is_opt(ka):
+                return fl.ite(c, f"(some {a})", "none"), "opt " + ka      # `x if flag else None`
+            if kc == "bool" and ka == "none" and isinstance(kb, str) and kb != "none" and not is_opt(kb):
+                return fl.ite(c, "none", f"(some {b})"), "opt " + kb
             if kc != "bool" or ka != kb:
                 self.err(n, "if-expression")
             return fl.ite(c, a, b), ka
